@@ -2,6 +2,7 @@ package props
 
 import (
 	"fmt"
+	"math"
 	"os"
 	"path/filepath"
 	"testing"
@@ -21,6 +22,12 @@ type C04Case struct {
 	// windows are re-checked after each write, so every window is seen on an empty file, with
 	// only other archives written, and with its own archive written.
 	WriteOrder []int `json:"write_order"`
+	// WriteAge: the writes carry the timestamp now - WriteAge (clamped into each archive's retention), so the
+	// ring seam (the slot of the base interval) lies anywhere in the window
+	WriteAge int64 `json:"write_age,omitempty"`
+	// ReaderLag: after the writes every window is fetched once more at the clock now - ReaderLag (a reader whose
+	// clock is behind or, when negative, ahead of the writer's): the shape depends on the clock it is given
+	ReaderLag int64 `json:"reader_lag,omitempty"`
 }
 
 func runC04(c C04Case, ev *Evid) (fs []Finding) {
@@ -33,13 +40,14 @@ func runC04(c C04Case, ev *Evid) (fs []Finding) {
 	defer db.Close()
 	nontrivial := false
 	var cls []string
+	clock := c.Now
 	check := func(state string) []Finding {
 		for _, w := range c.Windows {
-			sh := c.L.Shape(w.ID, w.From, w.Until, c.Now)
-			r := fetchWT(db, w.ID, w.From, w.Until, c.Now)
-			ctx := fmt.Sprintf("%s: fetch(id=%d from=%d until=%d now=%d) layout %s", state, w.ID, w.From, w.Until, c.Now, c.L)
+			sh := c.L.Shape(w.ID, w.From, w.Until, clock)
+			r := fetchWT(db, w.ID, w.From, w.Until, clock)
+			ctx := fmt.Sprintf("%s: fetch(id=%d from=%d until=%d now=%d) layout %s", state, w.ID, w.From, w.Until, clock, c.L)
 			if f := compareFetch("C04", ctx, r, sh, nil); len(f) > 0 {
-				if w.ID == -1 && c.Now-w.From >= 1<<31 {
+				if w.ID == -1 && clock-w.From >= 1<<31 {
 					for i := range f {
 						f[i].Key = "best-archive-int32-wrap"
 					}
@@ -60,6 +68,9 @@ func runC04(c C04Case, ev *Evid) (fs []Finding) {
 	// per reading; the shape must be the contract's shape at ONE of the instants handed out - a fetch
 	// that mixes two readings matches neither.
 	wallClock := func(state string) []Finding {
+		if c.L.Archives[0].Points > 2000 {
+			return nil // (long archives are there for the window length; the clock modes are covered by the small ones)
+		}
 		for _, w := range c.Windows {
 			var reads []int64
 			saved := wt.Now
@@ -98,8 +109,12 @@ func runC04(c C04Case, ev *Evid) (fs []Finding) {
 		return f
 	}
 	for _, a := range c.WriteOrder {
-		if err, pm := updateWT(db, a, c.Now, 1.5, c.Now); err != nil || pm != "" {
-			return []Finding{{Property: "C04", Key: "setup-update", Detail: fmt.Sprintf("update archive %d at now failed: %v %s", a, err, pm)}}
+		age := c.WriteAge
+		if age >= c.L.Archives[a].Ret() {
+			age = c.L.Archives[a].Ret() - 1
+		}
+		if err, pm := updateWT(db, a, c.Now-age, 1.5, c.Now); err != nil || pm != "" {
+			return []Finding{{Property: "C04", Key: "setup-update", Detail: fmt.Sprintf("update archive %d at now-%d failed: %v %s", a, age, err, pm)}}
 		}
 		if f := check(fmt.Sprintf("after writing archive %d", a)); len(f) > 0 {
 			return f
@@ -107,6 +122,14 @@ func runC04(c C04Case, ev *Evid) (fs []Finding) {
 		if f := wallClock(fmt.Sprintf("after writing archive %d", a)); len(f) > 0 {
 			return f
 		}
+	}
+	if c.ReaderLag != 0 {
+		clock = c.Now - c.ReaderLag
+		if f := check(fmt.Sprintf("reader clock %d s behind the writer's (%d)", c.ReaderLag, c.Now)); len(f) > 0 {
+			return f
+		}
+		clock = c.Now
+		cls = append(cls, "reader-clock-differs")
 	}
 	for _, w := range c.Windows {
 		sh := c.L.Shape(w.ID, w.From, w.Until, c.Now)
@@ -162,10 +185,28 @@ func TestC04(t *testing.T) {
 		Assumptions: []string{"zone Z7 clocks (now > max retention + coarsest step; below 2^32 - 2 coarse steps)"},
 		Gen: func(t *rapid.T) C04Case {
 			o := defaultLayoutOpts()
+			o.HugePct = 1
 			l := genLayout(t, o)
 			c := C04Case{L: l, Now: genNow(t, l)}
 			for i := 0; i < 6; i++ {
 				c.Windows = append(c.Windows, genWindow(t, l, c.Now, true))
+			}
+			if l.Archives[0].Points > 2000 {
+				// long archives: whole-retention windows (longer than any bulk-read buffer), for each archive
+				for a, ar := range l.Archives {
+					c.Windows = append(c.Windows, Window{ID: a, From: c.Now - ar.Ret(), Until: c.Now}, Window{ID: a, From: c.Now - ar.Ret() + rapid.Int64Range(0, 3*ar.Step).Draw(t, "fullFromD"), Until: c.Now - rapid.Int64Range(0, 3*ar.Step).Draw(t, "fullUntilD")})
+				}
+			}
+			if rapid.Bool().Draw(t, "writeAged") {
+				c.WriteAge = rapid.Int64Range(0, l.MaxRet()-1).Draw(t, "writeAge")
+			}
+			if rapid.IntRange(0, 2).Draw(t, "readerLag") == 0 {
+				coarse := l.Archives[len(l.Archives)-1].Step
+				c.ReaderLag = rapid.Int64Range(-2*coarse, 2*coarse).Draw(t, "lag")
+				// stay inside zone Z7 (clock >= maxRetention + coarsest step, two steps below 2^32)
+				if c.Now-c.ReaderLag < l.MaxRet()+coarse+1 || c.Now-c.ReaderLag > int64(math.MaxUint32)-2*coarse-1 {
+					c.ReaderLag = 0
+				}
 			}
 			ids := make([]int, len(l.Archives))
 			for i := range ids {
